@@ -253,6 +253,15 @@ func (s *Stack) classify(b []byte) string {
 	var m map[string]interface{}
 	if json.Unmarshal(b, &m) == nil {
 		if et, ok := m["errorType"].(string); ok {
+			if et == "Function.ResponseSizeTooLarge" {
+				// "Response payload size (N bytes) exceeded maximum allowed payload size (M bytes)."
+				var n, mx int
+				msg, _ := m["errorMessage"].(string)
+				if c, _ := fmt.Sscanf(msg, "Response payload size (%d bytes) exceeded maximum allowed payload size (%d bytes)", &n, &mx); c == 2 {
+					return fmt.Sprintf("err:%s|%d|%d", et, n, mx)
+				}
+				return "err:" + et + "|nosizes"
+			}
 			return "err:" + et
 		}
 	}
@@ -308,6 +317,10 @@ func (s *Stack) Invoke(caller int, payload []byte, label string, clientCtx, trac
 	if label == "" {
 		label = fmt.Sprintf("p%d", k)
 	}
+	if len(payload) > interop.MaxPayloadSize {
+		// an oversized event must reach the runtime cut at the limit: the prefix has its own label
+		s.noteBody(payload[:interop.MaxPayloadSize], fmt.Sprintf("c%d", k))
+	}
 	label = s.noteBody(payload, label)
 	w := &respWriter{hdr: http.Header{}}
 	inv := &interop.Invoke{
@@ -320,7 +333,7 @@ func (s *Stack) Invoke(caller int, payload []byte, label string, clientCtx, trac
 	}
 	t0 := time.Now()
 	s.Rec.Emit(fmt.Sprintf("caller:%d", caller), "InvokeCall", "caller", caller, "k", k, "payload", label, "size", len(payload),
-		"ctx", clientCtx, "trace", traceID)
+		"ctx", clientCtx, "trace", traceID, "nowMs", time.Now().UnixMilli())
 	s.invMu.Unlock()
 	err := s.Srv.Invoke(w, inv)
 	res := InvokeResult{Status: w.status, DurMs: time.Since(t0).Milliseconds()}
